@@ -85,6 +85,14 @@ def main():
                 shutil.copy(demo, dest / "demo.py")
                 if notes.exists():
                     shutil.copy(notes, dest / "notes.md")
+                prev = {}
+                if (dest / "meta.json").exists():
+                    try:
+                        prev = json.loads((dest / "meta.json").read_text())
+                    except Exception:  # noqa: BLE001
+                        prev = {}
+                if not run_tests and prev.get("what_was_run", {}).get("fast_tests") not in (None, "not run"):
+                    res["fast_tests_tail"] = prev["what_was_run"]["fast_tests"]
                 meta = {"breaks_property": prop, "needs_to_manifest": (notes.read_text()[:1500] if notes.exists() else ""),
                         "what_was_run": {"demo": f"PYTHONPATH=<checkout> /venv/bin/python demo.py (exit {res['demo_clean_exit']} unchanged, {res['demo_mutated_exit']} changed)",
                                          "fast_tests": res.get("fast_tests_tail", "not run"),
